@@ -1,7 +1,9 @@
 /-
 The specification `Zk.Cl.ArithOK` of the L0 integer primitives (`ZkModel/L0/IntArith.lean`),
-proved outright: `Zk.Cl.arithOK`.  Also `bitLen_spec`, `tmod_eq_emod_of_nonneg`,
-`isqrt_eq_sqrt`, `invMod_isSome_iff`.
+proved outright: `Zk.Cl.arithOK`.  Also `Zk.Cl.bitLen_spec`, `Zk.Cl.tmod_eq_emod_of_nonneg`.
+Everything else lives in the namespace `Zk.Cl.ArithSpec` (`powModNat_spec`, `powMod_nonneg`,
+`powMod_neg`, `powMod_range`, `invMod_some`, `invMod_none`, `invMod_isSome_iff`, `isqrt_eq_sqrt`,
+`bitLen_pos`, `lt_two_pow_of_bitLen`) to keep `Zk.Cl` free of clashes.
 -/
 import ZkProofs.ClSetting
 import Mathlib.Data.Nat.Log
@@ -11,7 +13,7 @@ import Mathlib.Tactic.Ring
 import Mathlib.Tactic.Linarith
 import Mathlib.Data.Nat.Sqrt
 open Zk.IA
-namespace Zk.Cl
+namespace Zk.Cl.ArithSpec
 
 theorem forIn_range'_iter {σ : Type} (g : σ → σ) (f : Nat → σ → Id (ForInStep σ))
     (hf : ∀ x st, f x st = pure (ForInStep.yield (g st))) (k s : Nat) (init : σ) :
@@ -355,7 +357,7 @@ theorem isqrt_spec (n : Nat) : isqrt n ^ 2 ≤ n ∧ n < (isqrt n + 1) ^ 2 := by
 /-! ### the specification -/
 
 /-- The L0 integer primitives meet their specification. -/
-theorem arithOK : ArithOK where
+theorem _root_.Zk.Cl.arithOK : ArithOK where
   powMod_nonneg := powMod_nonneg
   powMod_neg := powMod_neg
   invMod_some := invMod_some
@@ -371,7 +373,7 @@ theorem bitLen_pos {v : Int} (hv : 0 < v) : bitLen v = v.toNat.log2 + 1 := by
   omega
 
 /-- `significant_bits`: `v` has exactly `k` bits iff `2^(k-1) ≤ v < 2^k`. -/
-theorem bitLen_spec {v : Int} {k : Nat} (hv : 0 < v) (hk : 1 ≤ k) :
+theorem _root_.Zk.Cl.bitLen_spec {v : Int} {k : Nat} (hv : 0 < v) (hk : 1 ≤ k) :
     bitLen v = k ↔ (2 : Int) ^ (k - 1) ≤ v ∧ v < 2 ^ k := by
   rw [bitLen_pos hv]
   obtain ⟨j, rfl⟩ : ∃ j, k = j + 1 := ⟨k - 1, by omega⟩
@@ -395,7 +397,7 @@ theorem lt_two_pow_of_bitLen {v : Int} {k : Nat} (hv : 0 ≤ v) (h : bitLen v = 
   · have hk : 1 ≤ k := by rw [← h, bitLen_pos hv]; omega
     exact ((bitLen_spec hv hk).1 h).2
 
-theorem tmod_eq_emod_of_nonneg {a n : Int} (ha : 0 ≤ a) (_hn : 0 < n) : tmod a n = a % n :=
+theorem _root_.Zk.Cl.tmod_eq_emod_of_nonneg {a n : Int} (ha : 0 ≤ a) (_hn : 0 < n) : tmod a n = a % n :=
   Int.tmod_eq_emod_of_nonneg ha
 
-end Zk.Cl
+end Zk.Cl.ArithSpec
